@@ -241,7 +241,9 @@ Section RaggedCat.
         match rest with
         | [] => Some x0                                 (* if len(xs) == 1: return xs[0] *)
         | _ :: _ =>
-            if forallb (fun x => ec x =? ec x0) rest then
+            (* for x in xs[1:]: num_cols must agree, and (fix db1caa6: "The embedding dimension of each
+               column must be the same") torch.equal(x.offset, xs[0].offset) *)
+            if forallb (fun x => (ec x =? ec x0) && list_eqb Nat.eqb (eoffs x) (eoffs x0)) rest then
               values <- t2_cat0 (map (@evals A) xs) ;;
               mk_met A (sum (map (@er A) xs)) (ec x0) values (eoffs x0)      (* offset = xs[0].offset *)
             else None
@@ -272,6 +274,19 @@ Section RaggedCat.
         end
     end.
 
+  (* MultiEmbeddingTensor.from_tensor_list(tensor_list): the real input shape, a
+     non-empty list of 2-D tensors with the same size(0); values = cat(dim=1) *)
+  Definition met_from_tensor_list (cols : list (t2 A)) : option (met A) :=
+    match cols with
+    | [] => None                                        (* assert len(tensor_list) > 0 *)
+    | v0 :: rest =>
+        let num_rows := length (t2rows v0) in
+        if forallb (fun v => length (t2rows v) =? num_rows) rest then
+          values <- t2_cat1 cols ;;
+          mk_met A num_rows (length cols) values (0 :: cumsum (map (@t2w A) cols))
+        else None                                       (* "num_rows must be the same ..." *)
+    end.
+
   Definition met_cat (xs : list (met A)) (dim : Z) : option (met A) :=
     match xs with
     | [] => None
@@ -297,6 +312,12 @@ Section RaggedCat.
     | (k', v) :: r => if k' =? k then Some v else dict_get r k
     end.
 
+  (* d.keys() == d0.keys() for dicts (association lists with distinct keys) *)
+  Definition same_keys (d0 d : list (nat * mnt A)) : bool :=
+    (length d =? length d0)
+    && forallb (fun kv => existsb (fun kv0 => fst kv0 =? fst kv) d0) d
+    && forallb (fun kv0 => existsb (fun kv => fst kv =? fst kv0) d) d0.
+
   Definition cat_tensor_data (l : list tdata) (dim : Z) : option tdata :=
     match l with
     | [] => None                                        (* ValueError("Cannot concatenate an empty list.") *)
@@ -314,6 +335,9 @@ Section RaggedCat.
             | TMet _ => ts <- mapM as_met l ;; option_map TMet (met_cat ts dim)
             | TDict d0 =>
                 ds <- mapM as_dict l ;;
+                (* fix c88cd56: every later dict must have the key SET of the first
+                   (td_dict.keys() != td.keys() raises); keys of a dict are distinct *)
+                if negb (forallb (same_keys d0) ds) then None else
                 r <- mapM (fun kv => ts <- mapM (fun d => dict_get d (fst kv)) ds ;;
                                      t <- mnt_cat ts dim ;; Some (fst kv, t)) d0 ;;
                 Some (TDict r)
@@ -377,6 +401,41 @@ Section Eval.
     end.
 End Eval.
 
+(* plain 2-D tensors (kind "dense"): torch.tensor(rows of scalars), t[ix] / t[:, ix] with
+   slices and index lists, torch_frame.cat *)
+Fixpoint build_dense (s : src) : option (t2 payload) :=
+  match s with
+  | SBase m =>
+      match m with
+      | [] => Some (MkT2 [] 0)
+      | r0 :: _ => if forallb (fun r => length r =? length r0) m
+                   then Some (MkT2 (map (@concat payload) m) (length r0)) else None
+      end
+  | SSel s' d ix =>
+      t <- build_dense s' ;;
+      pos <- py_positions (if d =? 0 then length (t2rows t) else t2w t) ix ;;
+      if d =? 0 then t2_row_gather payload t pos else t2_col_gather payload t pos
+  | SCat xs d tf =>
+      ts <- (fix go (l : list src) : option (list (t2 payload)) :=
+               match l with
+               | [] => Some []
+               | x :: r => t <- build_dense x ;; ts <- go r ;; Some (t :: ts)
+               end) xs ;;
+      r <- cat_tensor_data payload junk0 junkp (map TDense ts) d ;; as_dense payload r
+  | _ => None
+  end.
+
+(* shape and rows of a 2-D tensor; None = raised *)
+Definition t2_obs_eqb (a : option (t2 payload)) (b : option (nat * nat * list (list payload))) : bool :=
+  match a, b with
+  | None, None => true
+  | Some t, Some (r, w, rows) =>
+      Nat.eqb (length (t2rows t)) r && Nat.eqb (t2w t) w && list_eqb (list_eqb payload_eqb) (t2rows t) rows
+  | _, _ => false
+  end.
+Definition case_dense_cat (s : src) (seen : option (nat * nat * list (list payload))) : bool :=
+  t2_obs_eqb (build_dense s) seen.
+
 Definition na_float (p : payload) : bool := match p with None => true | Some _ => false end.
 Definition na_int (marker : Z) (p : payload) : bool := payload_eqb p (Some marker).
 
@@ -402,6 +461,10 @@ Definition case_mnt (is_na : payload -> bool) (s : src) (seen : cobs) : bool :=
   cobs_eqb (cobs_of (mnt_kernels payload) (build_mnt is_na s)) seen.
 Definition case_met (is_na : payload -> bool) (s : src) (seen : cobs) : bool :=
   cobs_eqb (cobs_of (met_kernels payload) (build_met is_na s)) seen.
+
+(* from_tensor_list on explicit column tensors *)
+Definition case_met_cols (cols : list (t2 payload)) (seen : cobs) : bool :=
+  cobs_eqb (cobs_of (met_kernels payload) (met_from_tensor_list payload cols)) seen.
 
 (* to_dense(fill) of the container denoted by s: None = raised *)
 Definition dense_eqb (a b : option (list (list (list payload)))) : bool :=
@@ -441,6 +504,10 @@ From PF Require Import Model.RaggedSpec.
 Definition vcat {X} (ms : list (list (list X))) : list (list X) := concat ms.
 Definition hcat {X} (n : nat) (ms : list (list (list X))) : list (list X) :=
   map (fun r => concat (map (fun m => nth r m []) ms)) (seq 0 n).
+
+(* the column tensors from_tensor_list is given for the cell matrix m of widths ws *)
+Definition cols_of {X} (ws : list nat) (m : list (list (list X))) : list (t2 X) :=
+  map (fun j => MkT2 (map (fun row => nth j row []) m) (nth j ws 0)) (seq 0 (length ws)).
 
 (* apply f to the j-th element (nothing happens for j out of range) *)
 Definition upd_nth {X} (f : X -> X) (j : nat) (l : list X) : list X :=
